@@ -219,7 +219,7 @@ def selftest() -> None:
 
 def run(ctx: Ctx) -> None:
     ipsec.selftest()
-    bound = 3 if ctx.thorough else 2
+    bound = (3 if ctx.thorough else 2) + int(__import__("os").environ.get("VF_DEEPER", 0))
     steps = 5
     ctx.rule = (
         f"real SecureRouting/SecureGroup/SecureSequenceTimer from connect() on (timer synchronisation running), in-memory multicast, random.uniform owned by the harness (min and max), "
